@@ -1,6 +1,7 @@
 package harness
 
 import (
+	"verifsim/simdisk"
 	"fmt"
 	"sort"
 	"strings"
@@ -171,11 +172,12 @@ func twinCfg(e *Env, rng *simsched.Rand) *Cfg {
 }
 
 func init() {
-	probeNames["C07"] = []string{"twin_compared", "aborted_rollback", "aborted_close", "aborted_failed_commit", "aborted_after_flush", "aborted_with_meta_growth", "aborted_alloc_from_end", "aborted_alloc_from_freelist", "aborted_freed_new_page", "reopen"}
+	probeNames["C07"] = []string{"twin_compared", "aborted_rollback", "aborted_close", "aborted_failed_commit", "aborted_after_flush", "aborted_with_meta_growth", "aborted_alloc_from_end", "aborted_alloc_from_freelist", "aborted_freed_new_page", "aborted_by_write_fault", "reopen"}
 	register(&PropDef{
 		ID: "C07", Level: "exploration", QuickSec: 50, ThoroSec: 900,
-		Rule: "twin execution: run A executes a seeded history in which transactions end by Rollback, Close or a Commit that fails (out of space on bounded files); run B executes only the transactions that committed. After every aborted transaction and after every later transaction the twins must agree on the committed model state, on the free data/meta page SETS, end markers, meta area size, internal pages, overwrite mapping, on the capacity probe (bounded files), on every operation outcome (returned page ids, errors) and on the state after reopen. Non-trivial = run with at least one aborted transaction that had allocated, freed or flushed pages; distinct = op list + config + schedule hash.",
+		Rule: "twin execution: run A executes a seeded history in which transactions end by Rollback, Close or a Commit that fails (out of space on bounded files, or an injected WriteAt failure / short write armed right before that Commit and cleared when it returns); run B executes only the transactions that committed. After every aborted transaction and after every later transaction the twins must agree on the committed model state, on the free data/meta page SETS, end markers, meta area size, internal pages, overwrite mapping, on the capacity probe (bounded files), on every operation outcome (returned page ids, errors) and on the state after reopen. Non-trivial = run with at least one aborted transaction that had allocated, freed or flushed pages; distinct = op list + config + schedule hash.",
 		Real: defaultReal, Stub: defaultStub, Assume: defaultAssume,
+		FaultKinds: []string{"write error inside the aborted transaction", "short write inside the aborted transaction", "out of space at commit"},
 		Body: c07Body,
 	})
 	probeNames["C10"] = []string{"twin_compared", "reopen_point", "freelist_pages_ge2", "freelist_pages_ge3", "region_ge255", "wal_mapping_pages_ge2", "grown_past_initial_mapping"}
@@ -227,6 +229,8 @@ func c07Body(e *Env) {
 			explicit = []Op{}
 		}
 	}
+	frng := e.Rng("c07fault")
+	var held *Op
 	next := func() (Op, bool) {
 		if explicit != nil {
 			if len(explicit) == 0 {
@@ -236,8 +240,25 @@ func c07Body(e *Env) {
 			explicit = explicit[1:]
 			return op, true
 		}
-		return g.Next(), true
+		if held != nil {
+			op := *held
+			held = nil
+			return op, true
+		}
+		op := g.Next()
+		if a.InTx() && op.K == "commit" && frng.Intn(6) == 0 {
+			// a write failure inside this Commit: the transaction fails and must leave
+			// no trace, like any other aborted transaction. (Not armed before
+			// Tx.Flush + Rollback: the engine reports an asynchronous write error of
+			// flushed pages at the next commit, which C08 allows and C07 does not
+			// talk about.)
+			held = &op
+			return Op{K: "faultarm", A: frng.Intn(2), B: frng.Intn(6)}, true
+		}
+		return op, true
 	}
+	armed := false
+	firedBefore := 0
 	ended := 0
 	var txOps []Op
 	outStart := 0
@@ -254,6 +275,15 @@ func c07Body(e *Env) {
 			if a.Apply(op) {
 				b.Apply(op)
 				t.compare("after reopen of both twins")
+			}
+			continue
+		}
+		if op.K == "faultarm" {
+			if a.InTx() && !armed {
+				kind := []simdisk.FaultKind{simdisk.FWriteErr, simdisk.FWriteShort}[abs(op.A)%2]
+				a.D.SetFaults([]simdisk.Fault{{Kind: kind, Nth: abs(op.B) % 64, Burst: 1}})
+				a.Faulty, armed = true, true
+				a.Ops = append(a.Ops, op)
 			}
 			continue
 		}
@@ -307,6 +337,17 @@ func c07Body(e *Env) {
 		switch op.K {
 		case "commit", "rollback", "closetx":
 			ended++
+			faultFired := false
+			if armed {
+				faultFired = a.D.Fired[simdisk.FWriteErr]+a.D.Fired[simdisk.FWriteShort] > firedBefore
+				firedBefore = a.D.Fired[simdisk.FWriteErr] + a.D.Fired[simdisk.FWriteShort]
+				a.D.ClearFaults()
+				a.Faulty, armed = false, false
+			}
+			if faultFired && len(a.Hist) == commitsBefore {
+				e.Probe("aborted_by_write_fault")
+				e.Res.Nontrivial = true
+			}
 			if len(a.Hist) > commitsBefore {
 				// committed: B executes the same transaction
 				t.replayOnB(txOps, append([]string(nil), a.Outcome[outStart:]...))
